@@ -10,3 +10,7 @@ open Verif.Props.C01
 #print axioms rewrite_sound_counterexample
 #print axioms guarded_is_model
 #print axioms printer_sound
+#print axioms optStmt_sound
+#print axioms stmts_sound_block
+#print axioms stmts_sound_partial
+#print axioms stmts_sound_counterexample
